@@ -227,6 +227,10 @@ deriving Repr
 
 def Kind.isBool (k : Kind) : Bool := k.base == .bool && !k.slice
 
+/-- the pointer types `GeneralValue.Set` has a case for: all but `*[]float32` / `*[]float64` (values.go:32-173 has no such
+    case: `Set` answers "unhandled type", which `setOrFail` turns into the fatal exit) -/
+def Kind.supported (k : Kind) : Bool := !(k.slice && (k.base == .f32 || k.base == .f64))
+
 /-- ids of the built-in options -/
 def idHelp : Nat := 0
 def idVersion : Nat := 1
@@ -420,6 +424,15 @@ def truncU (b : Nat) : Nat :=
   | .fin _ m e => if 0 ≤ e then m * 2 ^ e.toNat else m / 2 ^ (-e).toNat
   | _ => 0
 
+/-- `(\.[0-9]*)?` behind the integer part: the fraction digits as an integer, `scale`, the rest of the text, and whether
+    any digit was consumed -/
+def fracPart (s1 : Str) : Nat × Nat × Str × Bool :=
+  match s1 with
+  | 46 :: t => ((leadingFraction t 0 (f64OfNat 1) false).1, (leadingFraction t 0 (f64OfNat 1) false).2.1,
+                (leadingFraction t 0 (f64OfNat 1) false).2.2,
+                (leadingFraction t 0 (f64OfNat 1) false).2.2.length != t.length)
+  | _ => (0, f64OfNat 1, s1, false)
+
 /-- one `number unit` group in front of `s` (non-empty), up to the addition to the running total `d` (uint64 arithmetic:
     this addition is the one that can wrap, so it is taken modulo 2^64): the new total and the rest of the text -/
 def durGroupRaw (s : Str) (d : Nat) : Option (Nat × Str) :=
@@ -430,12 +443,7 @@ def durGroupRaw (s : Str) (d : Nat) : Option (Nat × Str) :=
     match leadingInt s 0 with
     | none => none
     | some (v, s1) =>
-      let fr : Nat × Nat × Str × Bool :=
-        match s1 with
-        | 46 :: t => ((leadingFraction t 0 (f64OfNat 1) false).1, (leadingFraction t 0 (f64OfNat 1) false).2.1,
-                      (leadingFraction t 0 (f64OfNat 1) false).2.2,
-                      (leadingFraction t 0 (f64OfNat 1) false).2.2.length != t.length)
-        | _ => (0, f64OfNat 1, s1, false)
+      let fr := fracPart s1
       if s1.length == s.length && !fr.2.2.2 then none else
       if (takeUnit fr.2.2.1).1 = [] then none else
       match unitOf (takeUnit fr.2.2.1).1 with
@@ -503,7 +511,7 @@ def kindOfId (includeDefault : Bool) (decls : List Decl) (id : Nat) : Option Kin
 
 def acceptsOf (orc : Oracle) (includeDefault : Bool) (decls : List Decl) : Accepts := fun id v =>
   match kindOfId includeDefault decls id with
-  | some k => (typed orc k.base v).isSome
+  | some k => k.supported && (typed orc k.base v).isSome
   | none => false
 
 /-! ### final contents of the option variables -/
@@ -617,9 +625,9 @@ def setVar (orc : Oracle) (k : Kind) (cur : Var) (raw : Str) : Option Var :=
   | .uint bits, false => (parseUint bits raw).map (fun v => [toString v])             -- *uint, *uint8 … *uint64
   | .uint bits, true => (parseUint bits raw).map (fun v => cur ++ [toString v])       -- *[]uint, *[]uint8 … *[]uint64
   | .f32, false => (floatVal orc SoftFloat.f32 raw).map (fun v => [v])                        -- *float32
-  | .f32, true => (floatVal orc SoftFloat.f32 raw).map (fun v => cur ++ [v])
+  | .f32, true => none                                                                -- no case *[]float32: unhandled type
   | .f64, false => (floatVal orc SoftFloat.f64 raw).map (fun v => [v])                        -- *float64
-  | .f64, true => (floatVal orc SoftFloat.f64 raw).map (fun v => cur ++ [v])
+  | .f64, true => none                                                                -- no case *[]float64: unhandled type
   | .str, false => some [hexOf raw]                                                   -- *string
   | .str, true => some (cur ++ [hexOf raw])                                           -- *[]string
   | .dur, false => (durVal raw).map (fun v => [v])                        -- *time.Duration
